@@ -16,6 +16,10 @@ CHECKS = {
          "Every control-flow kernel program is analysed under every hash-iteration schedule of the order-sensitive traversals (whole schedule tree when < 64/1024 schedules, else all schedules with <= 1/2 non-canonical choices); every resulting graph is checked by node identity (nexts/prevs inverse, every edge a fall-through / jump to the written label / merged return, exit ecalls cut) and every control transfer of every explored execution (8/32 initial states, 256-step horizon) must be an edge, with no executed node reported unreachable.",
          "Trusted: interpreter; the hook model of hash order (per-set-instance memoized order; complete re-shuffles on table growth not modelled). Programs in which an explored execution falls off the end of the text are outside the quantifier.",
          "DESIGN.md 3 C03"),
+ "C09": ("bounded-exhaustive enumeration of statement layouts; oracle = independent locator and token spans known by construction",
+         "17 statement kinds (every node constructor, label, directives, malformed statements, statements that draw a specific diagnostic) x 4 positions x 5 indentations x 3 trailing texts x 3 line companies x 3 line endings x {base, included file} = 18360 layouts: every token of the real lexer, every node range, every parse error and every diagnostic of the full pipeline must have (line, column) equal to the harness locator's values for its raw offsets, lie inside the file on one line, and designate exactly the token(s) the layout generator placed there (register operand, label, or mnemonic through last operand).",
+         "Trusted: locator and the mini-scanner for the 17 statement texts. Zero-based line/column and inclusive end offsets (the convention of the repository's own JSON expectations). CLI rendering of the same positions is checked under C18.",
+         "DESIGN.md 3 C09"),
  "C11": ("bounded-exhaustive enumeration of call-graph/label arrangements x hash-order schedules; function table compared with an oracle computed from the AST and from identity-reachability over the final edges",
          "main calling f1, f2 (f3 from unreachable code) followed by every sequence of length <= 4/6 over an 11-symbol alphabet (function labels, local label, instruction, ret, jumps/branches to local and function labels, nested call) plus fixed programs for utvec handler installation and multi-label entries, each under every schedule within the deviation bound: entry nodes = call targets, Function::nodes() = identity-reachable set, owner lists consistent, one exit which is a return, other returns merged into it, sharing reported exactly when it exists.",
          "Trusted: the AST-level notion of call target; reachability uses the implementation's edges (C03).",
